@@ -460,6 +460,18 @@ parse_next_record_header:
     }
     else if (innerType == SSL_RECORD_TYPE_APPLICATION_DATA)
     {
+        /* Application data is only acceptable from a protected record and
+           only once the handshake is complete, or as early data that the
+           server is prepared to accept (RFC 8446, 2.3 and 4.2.10). */
+        if (!DECRYPTING_RECORDS(ssl) ||
+                (ssl->hsState != SSL_HS_DONE &&
+                 !(MATRIX_IS_SERVER(ssl) &&
+                   ssl->hsState == SSL_HS_TLS_1_3_WAIT_EOED)))
+        {
+            psTraceErrr("Application data before handshake completion\n");
+            ssl->err = SSL_ALERT_UNEXPECTED_MESSAGE;
+            goto encodeResponse;
+        }
         if (ssl->hsState == SSL_HS_TLS_1_3_WAIT_EOED)
         {
             if (ssl->sec.tls13ChosenPsk != NULL &&
